@@ -42,7 +42,7 @@ def main():
     # demo with patch
     demo_name = "seed_demo"
     shutil.copy(demo, f"{wt}/tests/{demo_name}.rs")
-    r = sh(f"cd {wt} && cargo test --offline --test {demo_name} 2>&1 | tail -30", env=env)
+    r = sh(f"cd {wt} && cargo test --offline --features serde --test {demo_name} 2>&1 | tail -30", env=env)
     demo_fails_with = "test result: FAILED" in r.stdout or "error: test failed" in r.stdout
     if "could not compile" in r.stdout:
         print("DEMO DOES NOT COMPILE\n", r.stdout)
@@ -50,7 +50,7 @@ def main():
     print("demo with patch:", meta["demo_with_patch"])
     # demo without patch
     sh(f"git -C {wt} checkout -- src cpp")
-    r = sh(f"cd {wt} && cargo test --offline --test {demo_name} 2>&1 | tail -30", env=env)
+    r = sh(f"cd {wt} && cargo test --offline --features serde --test {demo_name} 2>&1 | tail -30", env=env)
     demo_ok_without = "test result: ok" in r.stdout
     meta["demo_without_patch"] = "passes" if demo_ok_without else "fails"
     print("demo without patch:", meta["demo_without_patch"])
